@@ -356,14 +356,18 @@ func programScenario(L, maxH, c int, lazy bool) *explore.Scenario {
 						h.startRequested = true
 					}
 				}})
+				ops = append(ops, op{"Close", func() {
+					shutdown, cause = true, "Close"
+					e.r.Close() // its result is the subject of C06 (with a handler that was added but never started it is a timeout error)
+				}})
+			}
+			// a second Run is refused from the moment the first one has been called (while it is still starting up,
+			// too); with late goroutine starts "the first one has been called" is only certain after Running()
+			if runStarted && !shutdown && (runningWaited || !lazy) {
 				ops = append(ops, op{"SecondRun", func() {
 					if err := e.r.Run(context.Background()); err == nil {
 						vs.Fail("second-run", "program [%s]: a second Run returned nil", prog)
 					}
-				}})
-				ops = append(ops, op{"Close", func() {
-					shutdown, cause = true, "Close"
-					e.r.Close() // its result is the subject of C06 (with a handler that was added but never started it is a timeout error)
 				}})
 			}
 			if runStarted && !shutdown {
